@@ -3,6 +3,7 @@ package main
 import (
 	"encoding/json"
 	"math/rand"
+	"time"
 
 	"github.com/uhppoted/uhppote-core/types"
 	"github.com/uhppoted/uhppote-core/uhppote"
@@ -121,6 +122,41 @@ func runApiCalls(o *opts, inDomain bool) (*summary, error) {
 			emit(doCall(u, d, cs), cs, "bitwalk")
 			cs = g.call(op, ^(uint32(1) << uint(b)))
 			emit(doCall(u, d, cs), cs, "bitwalk")
+		}
+	}
+
+	// (6) dense date histories on one client: every day of a window that spans a leap-year end, forwards and
+	// backwards, then dates that differ only in the century / only in one component - whatever a call sends
+	// for a date must not depend on the dates earlier calls carried (a memo keyed by a lossy function of the
+	// date shows only for colliding neighbours)
+	{
+		u, d := stubClient(stubCfgs[1])
+		days := [][3]int{}
+		lo, hi := time.Date(2023, 12, 20, 0, 0, 0, 0, time.UTC), time.Date(2025, 1, 12, 0, 0, 0, 0, time.UTC)
+		if thorough {
+			lo, hi = time.Date(1999, 12, 1, 0, 0, 0, 0, time.UTC), time.Date(2005, 2, 1, 0, 0, 0, 0, time.UTC)
+		}
+		for t := lo; !t.After(hi); t = t.AddDate(0, 0, 1) {
+			days = append(days, [3]int{t.Year(), int(t.Month()), t.Day()})
+		}
+		seq := append([][3]int{}, days...)
+		for i := len(days) - 1; i >= 0; i-- {
+			seq = append(seq, days[i])
+		}
+		for _, y := range []int{1924, 2024, 2124, 24, 9924, 2024, 1924} {
+			for _, md := range [][2]int{{2, 29}, {12, 31}, {1, 1}, {10, 10}} {
+				seq = append(seq, [3]int{y, md[0], md[1]})
+			}
+		}
+		for _, x := range [][3]int{{2024, 1, 2}, {2024, 2, 1}, {2024, 1, 12}, {2024, 12, 1}, {2024, 11, 2}, {2024, 1, 21}, {2021, 4, 2}, {2024, 1, 2}} {
+			seq = append(seq, x)
+		}
+		ops := []string{"PutCard", "SetTimeProfile", "AddTask"}
+		for i := 0; i+1 < len(seq); i++ {
+			g.dates = [][3]int{seq[i], seq[i+1]}
+			cs := g.call(ops[i%len(ops)], pick(g.serial()))
+			g.dates = nil
+			emit(doCall(u, d, cs), cs, "date-history")
 		}
 	}
 
